@@ -13,3 +13,44 @@ na('C14', 'serialization is orjson (C extension) + pint string parsing + float '
           'repr/strtod: symbolic values are realised before the call, nothing '
           'of the round-trip is visible to the solver; no decimal<->binary '
           'float theory in SMT-LIB (DESIGN.md section 8)')
+SCHED_NOTE = ('integer time grid (float time outside the technique); stub '
+              'processes are pure; unwinding bound K passes per call (cuts '
+              'counted); proxies validated by concrete re-runs of sampled paths; '
+              'z3 trusted, cross-checked by cvc5 / z3 5.1 in thorough')
+check('C01',
+      'All schedules within the bounds (symbolic timesteps per process or per '
+      'poll, symbolic condition outcomes, symbolic intervals/force flags, free '
+      'symbolic deltas) are executed symbolically through the real Engine; on '
+      'every feasible path the solver shows each update applied exactly once, '
+      'at the end of its interval, in order, and every emitted row equal to the '
+      'sum of exactly the deltas due - free deltas force coefficient-wise '
+      'equality. Exhaustive per configuration.', SCHED_NOTE)
+check('C02',
+      'Same symbolic runs as C01: the solver shows timestep argument = apply '
+      'time - interval start, contiguity of intervals (restart at the clock '
+      'after a quiet poll), sum of timesteps = elapsed time, and completeness '
+      'after update(), for every schedule within the bounds including '
+      'timesteps that do not divide the run length (they are independent '
+      'symbolic variables).', SCHED_NOTE)
+check('C03',
+      'Adaptive timesteps and fresh condition outcomes per poll, every force '
+      'flag symbolic, N in 0..3: the solver shows on every path that the clock '
+      'never decreases, never passes the end, lands exactly, and that every '
+      'scheduler pass strictly advances it (ranking function => termination on '
+      'the integer grid; K passes as unwinding assertion). The adaptive '
+      're-poll defect is a listed known finding.', SCHED_NOTE)
+check('C17',
+      'Every path of length <= 3 (4) over a small alphabet with ".." at any '
+      'position, from every start node of 2 (3) tree shapes, is walked through '
+      'the real Store and compared with an independent lexical resolver; dict '
+      'helpers run with symbolic leaf values and the solver decides read-back '
+      'and frame equalities.',
+      'structure dimension is enumerated by solver-pruned forking (exhaustive '
+      'within the bound, not beyond); leaf values symbolic')
+check('C18',
+      'Raw histories over 3 tree shapes with symbolic ints/bools and falsy '
+      'constants; the branch on a value inside get_data(query) is decided by '
+      'the solver, so zero/False arise as models; alignment and read-back are '
+      'solver-decided equalities for all values.',
+      'quantities (pint) and DatabaseEmitter outside; saved_data filled '
+      'directly')
